@@ -245,8 +245,9 @@ def corr_ns_headers(ctx, corr):
 def correspond(ctx):
     corr = Corr()
     rng = ctx.rng
-    from harness import bodies
+    from harness import bodies, classdef
     bodies.corr_ns_bodies(ctx, corr)
+    classdef.corr_class_defs(ctx, corr)          # whole units: namespaces, linkage blocks, classes, statements (Parse/ClassDef.v)
     srcs = list(impl.corpus())
     for _ in range(ctx.scale(300, 6000)):
         srcs.append(blocks.gen_program(rng, rng.choice([4, 10, 25, 50])).source())
@@ -271,7 +272,7 @@ def correspond(ctx):
             corr.disagreements.append(dict(case=dict(source=s), model=str(m)[:300], impl=str(r)[:300]))
     corr_ns_headers(ctx, corr)
     corr.samples = [dict(source=keep[-1][0][:300])]
-    corr.note = "namespace headers: extracted Parse/NsHeader.v vs the namespace chain / alias the implementation reports, on valid and mutated headers | the recorded callback stream of real parses, folded by Parse/Fold.v (extracted), vs the scope tree SimpleCxxVisitor built (objects identified by the delivering callback)"
+    corr.note = "whole translation units (namespaces, linkage blocks, nested class definitions, declaration statements; valid and mutated): extracted Parse/ClassDef.v body vs parse_string with a tree-recording visitor | namespace headers: extracted Parse/NsHeader.v vs the namespace chain / alias the implementation reports, on valid and mutated headers | the recorded callback stream of real parses, folded by Parse/Fold.v (extracted), vs the scope tree SimpleCxxVisitor built (objects identified by the delivering callback)"
     return corr
 
 
